@@ -68,6 +68,16 @@ CHECKS = {
         ref="3/C08",
         technique="deterministic simulation with an independent in-process peer (differential interop), seeded search",
     ),
+    "C10": dict(
+        level="exploration",
+        text=("discrete-event world with an issuer clock, wire delays and a validator clock subject to skew and forward/backward "
+              "jumps, all behind the time seam; the validator builds JWTClaimsRegistry inside the delivery handler (implicit or "
+              "explicit now); deliveries are placed on the decision boundaries (exp+leeway, nbf/iat-leeway, +-1 s, sub-second) "
+              "and days/years away; every validation is judged by an executable model of the statement evaluated on the "
+              "validator's simulated clock. Seeded search over claims x requests x clocks."),
+        ref="3/C10",
+        technique="deterministic simulation: discrete-event clocks with skew/jump faults behind the time seam, executable reference model as oracle",
+    ),
     "C20": dict(
         level="exploration",
         text=("T = 2..32 real caller threads run operations from a 70-entry catalogue over one shared world (eagerly and lazily "
